@@ -809,8 +809,36 @@ pub fn harness_workers(name: &str) -> Vec<Vec<AOp>> {
         // three workers, one op each
         "three" => vec![vec![AOp::Inv(3, qb)], vec![AOp::Inv(3, qb)], vec![AOp::Centre(seamcell)]],
         "api" => vec![vec![AOp::Lookup(-93.0, 26.0, 1), AOp::Centre(seamcell)], vec![AOp::Centre(seamcell), AOp::Lookup(-93.0, 26.0, 1)]],
+        // "pair:i:j": two workers, one op each, taken from a small alphabet of colliding ops
+        n if n.starts_with("pair:") => {
+            let alpha = pair_alphabet();
+            let ij: Vec<usize> = n[5..].split(':').filter_map(|x| x.parse().ok()).collect();
+            if ij.len() == 2 && ij[0] < alpha.len() && ij[1] < alpha.len() {
+                vec![vec![alpha[ij[0]].clone()], vec![alpha[ij[1]].clone()]]
+            } else {
+                vec![]
+            }
+        }
         _ => vec![],
     }
+}
+
+/// small alphabet of ops that would touch the same memo slots / lazy tables if anything were shared
+pub fn pair_alphabet() -> Vec<AOp> {
+    let qb = plane_point(POp { face: 3, sector: 4, beyond: true, forward: false, on_seam: false });
+    let qi = plane_point(POp { face: 3, sector: 4, beyond: false, forward: false, on_seam: false });
+    let qs = plane_point(POp { face: 3, sector: 5, beyond: false, forward: false, on_seam: true });
+    let (seamcell, c5) = fixed_ids();
+    vec![
+        AOp::Inv(3, qb),
+        AOp::Inv(3, qi),
+        AOp::Inv(3, qs),
+        AOp::Inv(7, qb),
+        AOp::Centre(seamcell),
+        AOp::Boundary(c5, Some(1)),
+        AOp::Lookup(-93.0, 26.0, 1),
+        AOp::Lookup(12.3, 45.6, 2),
+    ]
 }
 
 fn cold_reference(workers: &[Vec<AOp>]) -> Vec<Vec<Res>> {
@@ -984,6 +1012,25 @@ pub fn run(tier: &str, verif_dir: &str) -> Report {
         }
         let done = sstats.executions - before;
         sched_summary.push(json!({"harness": name, "workers": workers.len(), "preemption_bound": bound, "executions": done, "cap_hit": sstats.executions >= cap, "fresh_process_per_execution": !in_process}));
+    }
+    // every unordered pair of the small alphabet as a two-worker harness
+    {
+        let na = pair_alphabet().len();
+        let bound = if quick { 1 } else { 2 };
+        let before = sstats.executions;
+        let mut pairs_done = 0;
+        for i in 0..na {
+            for j in i..na {
+                let name = format!("pair:{}:{}", i, j);
+                let workers = harness_workers(&name);
+                let coldref = cold_reference(&workers);
+                let cap = sstats.executions + 20000;
+                let runner = |p: &[usize]| run_execution(&workers, p);
+                explore(&workers, bound, &coldref, &runner, &mut sstats, &name, &mut sched_out, cap);
+                pairs_done += 1;
+            }
+        }
+        sched_summary.push(json!({"harness": "pair:i:j for all i<=j", "pairs": pairs_done, "workers": 2, "preemption_bound": bound, "executions": sstats.executions - before, "cap_hit": false, "fresh_process_per_execution": false}));
     }
     rep.sink.extend(sched_out);
     a5::verif::install(noop_hook);
